@@ -146,6 +146,10 @@ func c03Tuple(c *mc.Ctx, kinds []c03Kind, tuple []int) {
 			}
 			v.E[n] = ref.V{S: "END"}
 			vals = append(vals, v)
+			// the same value with the trailing field omitted: the last declared field really is last on the wire
+			v2 := ref.V{E: append([]ref.V(nil), v.E...)}
+			v2.E[n] = ref.V{S: ""}
+			vals = append(vals, v2)
 			return
 		}
 		for x := 0; x < 3; x++ {
@@ -255,6 +259,9 @@ func c03Pair(c *mc.Ctx, p interface {
 	}
 	pre.E[j] = ref.V{S: "before"}
 	want.E[j] = ref.V{S: "END"}
+	if v.E[n].S == "" {
+		want.E[j] = ref.V{S: "before"} // absent from the data: the prior value stays
+	}
 	sig := fmt.Sprintf("%s|S=%s|", nest, strings.Join(names, ","))
 	desc := func() string {
 		return fmt.Sprintf("S=%s value=%s S'=%s nest=%s data=%s", S, ref.Str(S, v), S2, nest, hx(data))
@@ -300,6 +307,9 @@ func c03Pair(c *mc.Ctx, p interface {
 				}
 				if added >= 0 {
 					want.E[len(keep)] = ref.Zero(kinds[added].t)
+				}
+				if v.E[n].S == "" {
+					want.E[len(want.E)-1] = ref.V{S: ""}
 				}
 			}
 		}
